@@ -288,6 +288,12 @@ int m4sim_posix_memalign(void **out, size_t align, size_t size) {
   *out = p;
   return 0;
 }
+/* the rest of the allocation family: a changed library may switch to them, and what it obtains there it will hand to free() */
+void *m4sim_aligned_alloc(size_t align, size_t size) { heap_stats.memaligns++; return sim_alloc(size, align < 16 ? 16 : align, 0, __builtin_return_address(0)); }
+void *m4sim_memalign(size_t align, size_t size) { heap_stats.memaligns++; return sim_alloc(size, align < 16 ? 16 : align, 0, __builtin_return_address(0)); }
+void *m4sim_valloc(size_t size) { heap_stats.memaligns++; return sim_alloc(size, 4096, 0, __builtin_return_address(0)); }
+char *m4sim_strdup(const char *s) { size_t n = strlen(s) + 1; char *p = (char *)sim_alloc(n, 16, 0, __builtin_return_address(0)); if (p) memcpy(p, s, n); return p; }
+char *m4sim_strndup(const char *s, size_t k) { size_t n = strnlen(s, k); char *p = (char *)sim_alloc(n + 1, 16, 0, __builtin_return_address(0)); if (p) { memcpy(p, s, n); p[n] = 0; } return p; }
 void m4sim_free(void *p) { sim_release(p, __builtin_return_address(0)); }
 void *m4sim_realloc(void *old, size_t size) {
   const void *site = __builtin_return_address(0);
@@ -305,4 +311,10 @@ void *m4sim_realloc(void *old, size_t size) {
   memcpy(p, old, osz < size ? osz : size);
   sim_release(old, site);
   return p;
+}
+
+void *m4sim_reallocarray(void *old, size_t n, size_t sz) {
+  size_t tot;
+  if (__builtin_mul_overflow(n, sz, &tot)) return NULL;
+  return m4sim_realloc(old, tot);
 }
